@@ -331,6 +331,14 @@ func (t Table) matchingHosts(req *http.Request, globCache *GlobCache) (hosts []s
 			continue
 		}
 
+		// the host itself always matches. Its text need not be a pattern
+		// which matches itself: the brackets of an IPv6 literal
+		// ('[::1]:8080') are a character class for the glob matcher.
+		if pattern != "" && normpat == host {
+			hosts = append(hosts, pattern)
+			continue
+		}
+
 		// Issue 548
 		//
 		//Get Compiled Glob from LRU cache
